@@ -179,6 +179,18 @@ CHECKS = {
               "cubic_curve (five boundary types) and surface interpolate vs the extracted exact model; L2 every factory reproduces its data / end conditions / sections / tolerance."),
         note=TB + " C14: numpy/scipy linear solves are modelled by exact Gauss-Jordan elimination whose result is accepted only after checking shape, A X = B (and X A = I for inverses) inside the model; conditioning is outside the model (L1 tolerance 1e-6 relative, inputs with cond > 1e6 skipped).",
         design='DESIGN.md section 8, C14'),
+    'C15': dict(
+        engine='sections',
+        technique='Coq proof (B-splines at a full-multiplicity knot from the Cox-de Boor spec, clamped end rows, sections through the lifting lemma, Coons algebra) + differential run of section() vs the extracted model + boundary evaluation of every construction',
+        text=("PARTIAL proof level. Theorems in Properties/C15.v: at a knot of multiplicity q exactly one degree-q B-spline is one (both one-sided families), hence the rows at the ends of an "
+              "open direction are unit rows; contracting a net with a unit row in direction d equals contracting the net sliced by the selection matrix (lifting lemma) and the pinned "
+              "direction drops out, i.e. a section evaluates to the restriction; bilinear Coons blending of four curves meeting at their corners has those curves as boundary, and the trilinear "
+              "blending of six faces has the given faces. Not proved (L2 only): the loop reordering of edge_curves, make_splines_identical inside the constructions (C12), const_par_curve's "
+              "matrix product, extrude/thicken, documented order of edges()/faces(). Correspondence: L1 section() for random selectors vs the extracted model; L2 every selector incl. keyword "
+              "forms, corners, edges()/faces() order, const_par_curve, edge_curves (2 and 4 curves: rotated, reversed, shuffled, re-represented boundary loops), edge_surfaces (2, 6), "
+              "extrude, thicken evaluated against the object / inputs."),
+        note=TB + " C15: sections are taken in open (clamped) directions; periodic directions may only be free.",
+        design='DESIGN.md section 8, C15'),
 }
 
 PENDING_REASON = "not claimed in this revision: model/theorems for this property are still being built (see DESIGN.md section 8 for the plan)"
